@@ -177,7 +177,8 @@ func (p *Proxy) handleRangeRequest(r responder.Responder, req *http.Request, cac
 			// IfRange is Time
 			timeIfRange := ifRange.ForceUnwrapRight()
 			// Without a stored Last-Modified there is nothing the date could match
-			if cached.Metadata.Object.LastModified.IsZero() || timeIfRange.Before(cached.Metadata.Object.LastModified) {
+			// and a date is a match only if it is the stored Last-Modified itself (RFC 9110 section 13.1.5)
+			if cached.Metadata.Object.LastModified.IsZero() || !timeIfRange.Equal(cached.Metadata.Object.LastModified) {
 				slog.Info("If-Range does not match cached Last-Modified. Sending full 200 response.", "url", req.URL, "key", key)
 				return ErrIfRangeMismatch
 			}
